@@ -129,15 +129,12 @@ impl RibbitClient {
                     Ok(n) => {
                         buffer.extend_from_slice(&temp_buf[..n]);
 
-                        // For V2 responses, check for double newline terminator
-                        // For V1 MIME responses, we need to read until connection closes
-                        // or we detect the complete MIME structure
-                        if buffer.ends_with(b"\n\n") {
-                            // Check if this might be a V1 MIME response that's not complete
-                            if !is_v1_mime_response(&buffer) {
-                                break;
-                            }
-                        }
+                        // Neither V1 MIME nor V2 text responses carry a length:
+                        // the server ends a response by closing the connection
+                        // (we have already shut down our write side). A blank
+                        // line is valid inside BPSV, so a buffer that happens to
+                        // end in "\n\n" at a packet boundary is not the end of
+                        // the response - keep reading until EOF.
 
                         // Safety limit - V1 responses can be larger due to signatures
                         if buffer.len() > 50 * 1024 * 1024 {
